@@ -23,3 +23,4 @@ open Verif.Props.C04
 #print axioms writeRaw_plain
 #print axioms bg_position_layer_ok
 #print axioms bg_position_ok
+#print axioms keepcss2_no_exponent
